@@ -386,6 +386,7 @@ func main() {
 	})
 	r.Register("v4", func(a []string) string { return obsV4(lib.UnHex(a[0])) })
 	registerHunt(r)
+	registerTie(r)
 	if r.Replayed() {
 		return
 	}
@@ -394,6 +395,7 @@ func main() {
 	if r.Thorough() {
 		n = 20000
 	}
+	tieCases(r)
 	seen := map[string]bool{}
 	emit := func(class string, msg []byte) {
 		if hasXN(msg) {
@@ -417,6 +419,7 @@ func main() {
 			}
 			r.Case("ra", []string{p, hx(msg)}, obs)
 		}
+		r.Do("opts", hx(msg)) // the decoder in isolation on the same bytes
 		r.Stat("class.ra."+class, 1)
 		r.Stat("ret."+ret, 1)
 		if ret == "ok" && found {
